@@ -64,7 +64,7 @@ def expected(kind, bits, b):
     raise KeyError(kind)
 
 
-def roundtrip(mod, dem, x, kind, b, reset=True):
+def roundtrip(mod, dem, x, kind, b, reset=True, widen=False):
     """-> list of problems (strings) for one tensor of bit sequences (last dim = bits)"""
     import torch
     if reset:
@@ -76,8 +76,10 @@ def roundtrip(mod, dem, x, kind, b, reset=True):
     if tuple(s.shape) != tuple(x.shape[:-1]) + (nb // b,):
         probs.append(("count", f"{nb} bits -> symbols of shape {tuple(s.shape)}, expected last dim {nb // b}"))
         return probs
+    if widen:                   # symbols handed over in double precision
+        s = s.to(torch.complex128 if s.is_complex() else torch.float64)
     y = dem(s)
-    rows_in = x.reshape(-1, nb).tolist()
+    rows_in = x.reshape(-1, nb).to(torch.float32).tolist()
     exp0, mask = expected(kind, rows_in[0], b)
     if tuple(y.shape) != tuple(x.shape[:-1]) + (len(exp0),) or y.dtype in (torch.int64, torch.int32) and False:
         probs.append(("roundtrip", f"demodulated shape {tuple(y.shape)}, expected {tuple(x.shape[:-1]) + (len(exp0),)}"))
@@ -103,12 +105,12 @@ def run_spec(p, res):
     mod, dem = MC.build(spec)
     res.outcome((scheme, M, kind))
 
-    def run(layout, x):
+    def run(layout, x, may_reject=False, widen=False):
         c = f"{cfg};layout={layout}"
         try:
-            probs = roundtrip(mod, dem, x, kind, b)
+            probs = roundtrip(mod, dem, x, kind, b, widen=widen)
         except Exception as e:  # noqa: BLE001
-            if kind == "differential" and x.shape[-1] == b and "at least two symbols" in str(e):
+            if may_reject or (kind == "differential" and x.shape[-1] == b and "at least two symbols" in str(e)):
                 res.rejected += 1
                 return
             res.viol(scheme, c, "raises", f"input shape {tuple(x.shape)}: {type(e).__name__}: {str(e)[:200]}")
@@ -131,6 +133,14 @@ def run_spec(p, res):
     seq = [bit for v in db for bit in sym(v)]
     run("1d-debruijn", torch.tensor(seq, dtype=f32))
     run("1,L-debruijn", torch.tensor([seq], dtype=f32))
+    # the same bits in other presentations: bit dtypes (declining a dtype is allowed, other bits are not), double-precision symbols, and
+    # non-contiguous views of a two-row batch
+    for dt in ("float64", "int64", "int32", "uint8", "bool", "float16"):
+        run(f"1,L-debruijn[{dt}]", torch.tensor([seq], dtype=f32).to(getattr(torch, dt)), may_reject=True)
+    run("1,L-debruijn[wide symbols]", torch.tensor([seq], dtype=f32), may_reject=True, widen=True)
+    two = torch.tensor([seq, seq[::-1]], dtype=f32)
+    run("2,L[transposed view]", two.t().contiguous().t(), may_reject=True)
+    run("2,L[strided view]", torch.stack([two, 1 - two], dim=2).reshape(2, -1)[:, ::2], may_reject=True)
     half = (len(db) // 4) * 2 * b
     if half >= 2 * b:
         run("2,L", torch.tensor([seq[:half], seq[-half:]], dtype=f32))
